@@ -33,7 +33,7 @@ var registry = map[string]check{
 	"C13": {"model_checking", checks.C13},
 	"C16": {"model_checking", checks.C16},
 	"C17": {"fault_enumeration", checks.C17},
-	"C18": {"exploration", checks.C18},
+	"C18": {"model_checking", checks.C18},
 	"C19": {"exploration", checks.C19},
 }
 
